@@ -29,8 +29,8 @@ def contains_forward_ref(tp: Any, depth: int = 0) -> bool:
     return any(contains_forward_ref(a, depth + 1) for a in typing.get_args(tp))
 
 
-def run(ctx: Ctx) -> None:
-    sub = valuecheck.subject()
+def run(ctx: Ctx, sub=None) -> None:
+    sub = sub or valuecheck.subject()
     m, t = sub.model, sub.types
     mp = Mapper(sub)
     evaluations = 0
